@@ -38,7 +38,7 @@ def nds_front(F):
 
 
 def gen_front(rng, N, M):
-    return gen_front_kind(rng, N, M, rng.randint(8))
+    return gen_front_kind(rng, N, M, rng.randint(9))
 
 
 def gen_front_kind(rng, N, M, k):
@@ -62,6 +62,11 @@ def gen_front_kind(rng, N, M, k):
         for _ in range(max(1, N // 5)):
             F[rng.randint(N)] = F[rng.randint(N)]
         return F
+    elif k == 8:                                  # few distinct points, many clones (distinct points <= / just above M)
+        u = int(rng.randint(1, M + 3))
+        U = rng.random_sample((u, M))
+        U = U / U.sum(axis=1, keepdims=True)
+        return U[rng.randint(0, u, size=N)]
     elif k == 7:                                  # whole front at a tiny scale (distances below 1e-16)
         F = rng.random_sample((3 * N, M))
         F = F / F.sum(axis=1, keepdims=True) * float(rng.choice([1e-17, 1e-20, 1e-30]))
@@ -87,11 +92,14 @@ def gen(rng, n_cases, max_n=40):
     for t in range(n_cases):
         label = LABELS[t % len(LABELS)]
         M = int(rng.choice([2, 2, 3, 3, 4, 5]))
-        N = int(rng.randint(1, max_n + 1))
+        # sizes: anywhere up to max_n, or right around the number of objectives (where the short-front rules switch)
+        N = int(rng.randint(1, max_n + 1)) if rng.randint(3) else int(rng.randint(1, M + 4))
         F = gen_front(rng, N, M)
         n = len(F)
-        k = rng.randint(4)
-        n_remove = 0 if k == 0 else (1 if k == 1 else int(rng.randint(0, n + 1)))
+        k = rng.randint(6)
+        # removals: none, one, anything, (almost) everything, around N - M (where the clamping rules of the engines apply)
+        n_remove = 0 if k == 0 else 1 if k == 1 else int(rng.randint(0, n + 1)) if k in (2, 3) else \
+            max(0, n - int(rng.randint(0, 3))) if k == 4 else max(0, n - M + int(rng.randint(-1, 2)))
         # how the caller holds the objective matrix: C order, Fortran order, a strided view, integer dtype
         layout = ["C", "C", "C", "F", "strided", "int"][rng.randint(6)]
         # another crowding operator has just been evaluated on the same front with the same n_remove
